@@ -174,7 +174,7 @@ def run_conic(c):
             return [f]
         A = con.array / np.max(np.abs(con.array))
         if diagonal:
-            ck.check(abs(np.linalg.det(A)) > 1e-10, "from_tangent:tangent-through-diagonal-point:proper-conic", float(abs(np.linalg.det(A))))
+            ck.check(abs(np.linalg.det(A)) > 1e-13, "from_tangent:tangent-through-diagonal-point:proper-conic", float(abs(np.linalg.det(A))))
         for i, p in enumerate(four):
             x = np.array(p + [1], dtype=complex)
             ck.check(abs(x @ A @ x) < 1e-7 * max(1, np.max(np.abs(x)) ** 2), "from_tangent:contains-point", (i, complex(x @ A @ x)))
